@@ -984,6 +984,37 @@ def generate(repo=None):
                     'def roundTable : List (String × String) :=\n  [%s]' % ', '.join('("%s", "%s")' % p_ for p_ in table))
         attempt('roundTable', fround)
 
+        def fround_exact():
+            # the branch of `_round` for exact rationals (fractions.Fraction, D41): `{<rule>: <python function>, ...}[method](val)`
+            node = meth.get('_round')
+            if node is None:
+                raise Untranslatable('Fxp._round not found')
+            a = [p.arg for p in node.args.args]
+            found = []
+
+            def walk(stmts):
+                for st in stmts:
+                    if isinstance(st, ast.If):
+                        t = st.test
+                        if isinstance(t, ast.Call) and getattr(t.func, 'id', None) == 'isinstance' and len(t.args) == 2 \
+                                and isinstance(t.args[0], ast.Name) and t.args[0].id == a[1] and ast.unparse(t.args[1]) == 'Fraction':
+                            for b in st.body:
+                                if isinstance(b, ast.Assign) and isinstance(b.value, ast.Call) and isinstance(b.value.func, ast.Subscript) \
+                                        and isinstance(b.value.func.value, ast.Dict) and isinstance(b.value.func.slice, ast.Name) \
+                                        and b.value.func.slice.id == a[2] and len(b.value.args) == 1 and isinstance(b.value.args[0], ast.Name) \
+                                        and b.value.args[0].id == a[1] and not b.value.keywords:
+                                    d = b.value.func.value
+                                    if not all(isinstance(k, ast.Constant) and isinstance(k.value, str) for k in d.keys):
+                                        raise Untranslatable('keys of the rational rounding table are not string constants')
+                                    found.append([(k.value, ast.unparse(v)) for k, v in zip(d.keys, d.values)])
+                        walk(st.orelse)
+            walk(node.body)
+            if len(found) != 1:
+                raise Untranslatable('the rational branch of _round is not `{...}[method](val)` (found %d tables)' % len(found))
+            return ('/-- `Fxp._round` on an exact rational (`fractions.Fraction`): the python function applied for each rounding rule -/\n'
+                    'def roundRationalTable : List (String × String) :=\n  [%s]' % ', '.join('("%s", "%s")' % p_ for p_ in found[0]))
+        attempt('roundRationalTable', fround_exact)
+
     # ------------------------------------------------------------------------------------------ _overflow_action
     if meth and ufuncs:
         def fflags():
